@@ -330,6 +330,13 @@ def run_client(e, estimands=("turnout",), alphas=(0.5,), pi_method="nonparametri
     feed = e.cur if reuse_feed else e.cur.copy()
     if frame_history:
         feed = e.cur.copy()
+        late = set(frame_history.get("late_ids") or [])
+        target = e.cur
+        if late:
+            # rows that were not in the frame at the earlier poll and are appended to it, in place, afterwards
+            m = e.cur["geographic_unit_fips"].isin(late)
+            target = pd.concat([e.cur[~m], e.cur[m]], ignore_index=True)
+            feed = e.cur[~m].copy().reset_index(drop=True)
         sc = float(frame_history.get("scale", 0.5))
         for c in ("results_dem", "results_gop", "results_turnout", "percent_expected_vote"):
             if c in feed.columns:
@@ -342,8 +349,10 @@ def run_client(e, estimands=("turnout",), alphas=(0.5,), pi_method="nonparametri
                                                e.unit_type, **kw0)
         except Exception:  # the earlier poll is only there for what it leaves behind
             pass
-        for c in e.cur.columns:
-            feed[c] = e.cur[c].values
+        for k in range(len(feed), len(target)):
+            feed.loc[k, list(target.columns)] = target.loc[k, list(target.columns)].values
+        for c in target.columns:
+            feed[c] = target[c].values
     elif derived_feed and "margin" in estimands:
         # a feed that already went through the Estimandizer once (mock live data, a previous poll): derived columns present
         feed = feed.copy()
